@@ -4,6 +4,18 @@ classes and Machine.__getitem__) with the Lean model RigModel/Model/C05.lean, an
 the Lean specification `Valid` / `Feasible` evaluated on the implementation's own
 allocations and exceptions (property oracle)."""
 import re
+import signal
+
+
+class Hang(Exception):
+    """the implementation used more CPU time than any terminating run could"""
+
+
+def _on_vtalrm(signum, frame):
+    raise Hang()
+
+
+HANG_LIMIT_S = 5.0   # CPU seconds for ONE allocate() call on a problem with < 100 requests (normal: < 1 ms)
 
 CLAIM = dict(
     text=("Machine-checked proof (Lean 4) over ALL machines (with per-chip exceptions), vertex sets, placements, "
@@ -219,7 +231,7 @@ def gen_case(rng, mode):
 
 
 # ---------------------------------------------------------------- implementation
-def impl_allocate(case):
+def impl_allocate(case, limit=None):
     from rig.place_and_route.allocate.greedy import allocate
     from rig.place_and_route.machine import Machine
     from rig.place_and_route.constraints import (
@@ -248,8 +260,16 @@ def impl_allocate(case):
     placements = {}
     for v, xy in case["placements"]:
         placements[v] = tuple(xy)
+    old = signal.signal(signal.SIGVTALRM, _on_vtalrm)
+    signal.setitimer(signal.ITIMER_VIRTUAL, limit or HANG_LIMIT_S)
     try:
-        out = allocate(vr, [], machine, constraints, placements)
+        try:
+            out = allocate(vr, [], machine, constraints, placements)
+        finally:
+            signal.setitimer(signal.ITIMER_VIRTUAL, 0)
+            signal.signal(signal.SIGVTALRM, old)
+    except Hang:
+        return {"err": "NoTermination"}
     except InsufficientResourceError as e:
         r = {"err": "InsufficientResourceError"}
         mm = re.match(r"^(-?\d+) over-allocated on chip \((-?\d+), (-?\d+)\)$", str(e))
@@ -310,68 +330,170 @@ def gaps(case, ok):
     return two, gap
 
 
-def eval_cases(ctx, cases):
+def judge(ctx, cases, limit=None):
+    """Run implementation, model and the Lean oracles on every case.  Returns one
+    verdict dict per case: viol = [(key, what)], mismatch = str | None, tags, nontriv.
+    Stops early (returns fewer verdicts) after two non-terminating calls."""
     reqs = []
+    hangs = 0
+    impls = []
     for c in cases:
-        c["_impl"] = impl_allocate(c)
+        impls.append(impl_allocate(c, limit))
+        if impls[-1].get("err") == "NoTermination":
+            hangs += 1
+            if hangs >= 2:      # enough evidence; do not burn the time budget
+                break
+    cases = cases[:len(impls)]
+    for c, impl in zip(cases, impls):
         inp = lean_input(c)
         reqs.append(dict(inp, suite="c05", op="allocate"))
         reqs.append(dict(inp, suite="c05", op="hyps"))
-        if c["_impl"].get("ok") is not None:
-            reqs.append(dict(inp, suite="c05", op="valid", out=c["_impl"]["ok"]))
+        if impl.get("ok") is not None:
+            reqs.append(dict(inp, suite="c05", op="valid", out=impl["ok"]))
     reps = iter(ctx.lean(reqs))
-    for c in cases:
-        impl = c.pop("_impl")
+    out = []
+    for c, impl in zip(cases, impls):
         model = canon_model(next(reps))
         hyps = next(reps)
         valid = next(reps) if impl.get("ok") is not None else None
-        desc = dict(c)
-        ctx.traces += 1
+        v = {"viol": [], "mismatch": None, "tags": [], "nontriv": False}
+        out.append(v)
         in_dom = hyps["well_formed"] and hyps["in_domain"]
-        cmp_impl = {k: v for k, v in impl.items() if k != "bad"}
+        cmp_impl = {k: x for k, x in impl.items() if k != "bad"}
         if cmp_impl.get("err") == "InsufficientResourceError" and "res" not in cmp_impl:
             model_cmp = {"err": model.get("err")} if "err" in model else model
         else:
             model_cmp = model
         if cmp_impl != model_cmp:
-            ctx.mismatch("c05.allocate", "impl=%r model=%r" % (impl, model), desc)
-        nontriv = False
+            v["mismatch"] = "impl=%r model=%r" % (impl, model)
         nresv = sum(1 for x in c["constraints"] if x["k"] == "reserve")
-        ctx.tag("mode_" + c.get("mode", "?"))
-        ctx.tag("domain_" + ("in" if in_dom else "out"))
+        v["tags"] += ["mode_" + c.get("mode", "?"), "domain_" + ("in" if in_dom else "out")]
         if hyps["feasible"] and in_dom:
-            ctx.tag("completeness_hypothesis_holds")
+            v["tags"].append("completeness_hypothesis_holds")
         if "ok" in impl:
-            ctx.tag("result_ok")
+            v["tags"].append("result_ok")
             if impl.get("bad"):
                 if in_dom:
-                    ctx.violation("not-a-range", impl["bad"], desc)
+                    v["viol"].append(("not-a-range", impl["bad"]))
             elif in_dom:
                 if not valid["valid"]:
                     failed = [k for k in ("same_keys", "served", "justified", "disjoint") if not valid[k]]
-                    ctx.violation("invalid-allocation-" + "+".join(failed),
-                                  "allocation violates the property (Lean `Valid` false; failed clauses %s): %r"
-                                  % (failed, impl["ok"]), desc)
+                    v["viol"].append(("invalid-allocation-" + "+".join(failed),
+                                      "allocation violates the property (Lean `Valid` false; failed clauses %s): %r"
+                                      % (failed, impl["ok"])))
                 two, gap = gaps(c, impl["ok"])
-                nontriv = two and gap
+                v["nontriv"] = two and gap
                 if gap:
-                    ctx.tag("forced_gap")
+                    v["tags"].append("forced_gap")
                 if any(a == b for _, va in impl["ok"] for _, a, b in va):
-                    ctx.tag("zero_size_range")
+                    v["tags"].append("zero_size_range")
         else:
-            ctx.tag("result_" + impl["err"])
+            v["tags"].append("result_" + impl["err"])
             if in_dom:
-                if impl["err"] != "InsufficientResourceError":
-                    ctx.violation("undocumented-exception-" + impl["err"],
-                                  "allocate raised %s on an in-domain input; the only documented failure is "
-                                  "InsufficientResourceError" % impl["err"], desc)
+                if impl["err"] == "NoTermination":
+                    v["viol"].append(("no-termination",
+                                      "allocate did not return within %.1f s of CPU time on an in-domain input "
+                                      "(the model's loop provably terminates: propose_no_fuel)"
+                                      % (limit or HANG_LIMIT_S)))
+                elif impl["err"] != "InsufficientResourceError":
+                    v["viol"].append(("undocumented-exception-" + impl["err"],
+                                      "allocate raised %s on an in-domain input; the only documented failure is "
+                                      "InsufficientResourceError" % impl["err"]))
                 elif hyps["feasible"]:
-                    ctx.violation("completeness",
-                                  "InsufficientResourceError although there is no alignment, reservations are "
-                                  "only at the ends of the ranges and the demand fits between them (Lean "
-                                  "`Feasible` true): %r" % (impl,), desc)
-                nontriv = nresv > 0 and len(c["placements"]) >= 2
-        ctx.case(desc, nontriv)
+                    v["viol"].append(("completeness",
+                                      "InsufficientResourceError although there is no alignment, reservations are "
+                                      "only at the ends of the ranges and the demand fits between them (Lean "
+                                      "`Feasible` true): %r" % (impl,)))
+                v["nontriv"] = nresv > 0 and len(c["placements"]) >= 2
+    return out
+
+
+def candidates(case):
+    """all cases obtained by deleting / simplifying one element"""
+    import copy
+    out = []
+
+    def variant(f):
+        c = copy.deepcopy(case)
+        f(c)
+        out.append(c)
+    for i in range(len(case["placements"])):
+        v = case["placements"][i][0]
+
+        def drop_vertex(c, i=i, v=v):
+            del c["placements"][i]
+            c["vr"] = [q for q in c["vr"] if q[0] != v]
+        variant(drop_vertex)
+    placed = set(v for v, _ in case["placements"])
+    for i, q in enumerate(case["vr"]):
+        if q[0] not in placed:
+            variant(lambda c, i=i: c["vr"].pop(i))
+        for k in range(len(q[1])):
+            variant(lambda c, i=i, k=k: c["vr"][i][1].pop(k))
+    for i in range(len(case["constraints"])):
+        variant(lambda c, i=i: c["constraints"].pop(i))
+    for i in range(len(case["machine"]["exceptions"])):
+        variant(lambda c, i=i: c["machine"]["exceptions"].pop(i))
+    for i in range(len(case["machine"]["dead"])):
+        variant(lambda c, i=i: c["machine"]["dead"].pop(i))
+    for i, q in enumerate(case["vr"]):
+        for k, (r, d) in enumerate(q[1]):
+            if d > 1:
+                variant(lambda c, i=i, k=k, d=d: c["vr"][i][1][k].__setitem__(1, d // 2))
+                variant(lambda c, i=i, k=k, d=d: c["vr"][i][1][k].__setitem__(1, d - 1))
+    return out
+
+
+def shrink(ctx, case, key, budget_s=25.0):
+    """greedy delta debugging: keep deleting while the same finding key is reported"""
+    import time
+    t0 = time.time()
+    cur = case
+    while time.time() - t0 < budget_s:
+        cands = candidates(cur)
+        if not cands:
+            break
+        nxt = None
+        for k in range(0, len(cands), 40):
+            part = cands[k:k + 40]
+            verdicts = judge(ctx, part, limit=0.5)
+            for c, v in zip(part, verdicts):
+                if any(kk == key for kk, _ in v["viol"]):
+                    nxt = c
+                    break
+            if nxt is not None or time.time() - t0 > budget_s:
+                break
+        if nxt is None:
+            break
+        cur = nxt
+    return cur
+
+
+def eval_cases(ctx, cases, do_shrink=True):
+    verdicts = judge(ctx, cases)
+    seen = set(k for k, _, _ in ctx.concrete)
+    for c, v in zip(cases, verdicts):
+        desc = dict(c)
+        ctx.traces += 1
+        ctx.tag(*v["tags"])
+        if v["mismatch"]:
+            ctx.mismatch("c05.allocate", v["mismatch"], desc)
+        for key, what in v["viol"]:
+            if key not in seen and do_shrink:
+                seen.add(key)
+                small = shrink(ctx, desc, key)
+                sv = judge(ctx, [small], limit=2.0)[0]
+                for k2, w2 in sv["viol"]:
+                    if k2 == key:
+                        small["shrunk_from_seed_case"] = True
+                        ctx.violation(key, w2, small)
+                        break
+                else:
+                    ctx.violation(key, what, desc)
+            else:
+                ctx.violation(key, what, desc)
+        ctx.case(desc, v["nontriv"])
+    return len(verdicts)
 
 
 def gen_cases(ctx, n):
@@ -419,10 +541,10 @@ def run(ctx):
         k = min(5000, n - done)
         eval_cases(ctx, gen_cases(ctx, k))
         done += k
-        if ctx.concrete and done >= 5000:
+        if ctx.concrete:
             break
 
 
 def replay(ctx, payload):
     ctx.extra["rule"] = RULE
-    eval_cases(ctx, [payload["case"]])
+    eval_cases(ctx, [payload["case"]], do_shrink=False)
